@@ -30,6 +30,8 @@ def make_registry():
     for c in CONTRACTS:
         reg.add_contract(c)
     reg.abstract_classes.add(f"{CFG}:set")
+    # collect() reads user files from disk: it is a parameter of the proof (ghost `collected`, chosen by refresh's setup)
+    reg.models[resolve(f"{CFG}:collect")] = lambda interp, *a, **k: interp.ctx.ghost["collected"]
     return reg
 
 
@@ -1096,6 +1098,8 @@ def up_shape(ctx, shape):
         ctx.assume(k.t != SV("device"))
         return k
     leaf = lambda n: Leaf(ctx.fresh(n, "int"))
+    if shape == "empty":
+        return []
     if shape == "flat1":
         return [(key("k1"), leaf("v1"))]
     if shape == "flat2":
@@ -1131,8 +1135,8 @@ def up_setup(ctx, prio, shapes=UP_SHAPES):
     items = up_shape(ctx, shape)
     old = SymDict.fresh(ctx, "old")
     defaults = None
-    if prio == "new-defaults" and ctx.branch(ctx.fresh("defaults_given", "bool").t):
-        defaults = SymDict.fresh(ctx, "defaults")
+    if prio == "new-defaults" and (shape != "flat1" or ctx.branch(ctx.fresh("defaults_given", "bool").t)):
+        defaults = SymDict.fresh(ctx, "defaults")  # arbitrary (possibly empty) mapping; None is only forked for the one-item shape
     return NS(old_handle=old, param_values=dict(old=old), new=ItemsMap(items), priority=prio, defaults=defaults, case=f"{prio}:{shape}", shape=shape)
 
 
@@ -1185,7 +1189,7 @@ def up_ensures(s):
     if gs is None:
         return [("ghost:canonical-key-per-item", z3.BoolVal(False))]
     t, t2 = s.old.tree, s.old_handle.tree()
-    out = [("returns-the-updated-dict", z3.BoolVal(s.result is s.old_handle)), ("first-item-starts-from-the-old-state", gs[0]["before"] == t)]
+    out = [("returns-the-updated-dict", z3.BoolVal(s.result is s.old_handle))] + ([("first-item-starts-from-the-old-state", gs[0]["before"] == t)] if gs else [])
     out += update_rel(t, t2, s.new.items(), gs, s.priority, dtree(s.defaults))
     return [(f"[{s.case}{',defaults-given' if s.defaults is not None else ''}]{a}", b) for a, b in out]
 
@@ -1223,12 +1227,226 @@ def up_contract(prio, shapes=UP_SHAPES):
                     note=f"priority {prio!r}; `new` ranges over the shapes {', '.join(shapes)} with arbitrary key strings and values; `old`, `defaults` arbitrary")
 
 
-C_UPD_NEW = up_contract("new")
+C_UPD_NEW = up_contract("new", UP_SHAPES + ("empty",))
 C_UPD_OLD = up_contract("old")
-C_UPD_ND = up_contract("new-defaults")
+C_UPD_ND = up_contract("new-defaults", ("flat1", "nested1", "opaque-section"))
+
+
+# ---- merge
+
+
+def fold_defaults(trees):
+    """merge(d1, ..., dn) of opaque mappings as a term: update applied left to right from the empty dict (priority 'new', no defaults)."""
+    t = EMPTY
+    for d in trees:
+        t = UPD(t, d, z3.IntVal(PRIO["new"]), EMPTY)
+    return t
+
+
+def mg_setup(ctx):
+    init_ctx(ctx)
+    override_globals(config=global_config(ctx), cp=M.CupyStub(), NUM_DEVICES=M.env_of(ctx).num)
+    shape = "nested-same-section"
+    for cand in ("opaque0", "opaque1", "opaque2", "opaque3", "flat+flat"):
+        if ctx.branch(ctx.fresh("shape_" + cand, "bool").t):
+            shape = cand
+            break
+    if shape.startswith("opaque"):
+        dicts = [SymDict.fresh(ctx, f"d{i}") for i in range(int(shape[-1]))]
+    elif shape == "flat+flat":
+        dicts = [ItemsMap(up_shape(ctx, "flat1")), ItemsMap([(fresh_nd_key(ctx, "k3"), Leaf(ctx.fresh("v3", "int")))])]
+    else:
+        k1 = fresh_nd_key(ctx, "k1")
+        k2, k4 = fresh_nd_key(ctx, "k2"), fresh_nd_key(ctx, "k4")
+        dicts = [ItemsMap([(k1, ItemsMap([(k2, Leaf(ctx.fresh("v2", "int")))]))]), ItemsMap([(k1, ItemsMap([(k4, Leaf(ctx.fresh("v4", "int")))]))])]
+    return NS(varargs=tuple(dicts), dicts=tuple(dicts), shape=shape, case=shape)
+
+
+def fresh_nd_key(ctx, name):
+    k = fresh_str(ctx, name)
+    ctx.assume(k.t != SV("device"))
+    return k
+
+
+def mg_snapshot(s):
+    return NS(n_up=len(s.ctx.ghost.get("update_calls", [])), writes=[d.root.writes for d in s.dicts if isinstance(d, SymDict)])
+
+
+def mg_ensures(s):
+    r = s.result
+    if not isinstance(r, SymDict):
+        return [("returns-a-dict", z3.BoolVal(False))]
+    out = [("returns-a-new-dict", z3.BoolVal(all(r is not d and (not isinstance(d, SymDict) or r.root is not d.root) for d in s.dicts))),
+           ("arguments-unchanged", z3.BoolVal([d.root.writes for d in s.dicts if isinstance(d, SymDict)] == s.old.writes))]
+    t = r.tree()
+    if all(isinstance(d, SymDict) for d in s.dicts):
+        out.append(("result-is-update-folded-from-the-empty-dict", t == fold_defaults([d.tree() for d in s.dicts])))
+        if not s.dicts:
+            out.append(("no-arguments:empty", t == EMPTY))
+    if s.mode == "apply":
+        return out
+    gss = s.ctx.ghost.get("update_calls", [])[s.old.n_up:]
+    if s.shape == "flat+flat":
+        (k1, v1), (k3, v3) = s.dicts[0].items()[0], s.dicts[1].items()[0]
+        c1, c3 = gss[0][0]["c"], gss[1][0]["c"]
+        out += [("later-mapping-wins", entry_is(t, c3, v3)),
+                ("earlier-key-kept-when-names-differ", implies(norm(k1) != norm(k3), entry_is(t, c1, v1))),
+                ("no-key-dropped", AND(present(t, c1), present(t, c3))),
+                ("canonical-names", AND(norm(c1) == norm(k1), norm(c3) == norm(k3)))]
+    elif s.shape == "nested-same-section":
+        (k1, m1), (_, m2) = s.dicts[0].items()[0], s.dicts[1].items()[0]
+        (k2, v2), (k4, v4) = m1.items()[0], m2.items()[0]
+        ca, cb = gss[0][0]["c"], gss[1][0]["c"]
+        c2, c4 = gss[0][0]["sub"][0]["c"], gss[1][0]["sub"][0]["c"]
+        sec = CF(t)[sterm(cb)]
+        out += [("one-section-for-the-shared-name", AND(sterm(ca) == sterm(cb), is_dict(t, cb))),
+                ("nested-merge-keeps-the-sibling-key", implies(norm(k2) != norm(k4), AND(entry_is(sec, c2, v2), entry_is(sec, c4, v4)))),
+                ("later-value-present", entry_is(sec, c4, v4)),
+                ("no-key-dropped", AND(present(sec, c2), present(sec, c4)))]
+    return [(f"[{s.shape}]{a}", b) for a, b in out]
+
+
+def mg_result(ctx, s):
+    if not all(isinstance(d, SymDict) for d in s.dicts):
+        raise OutOfSubset("merge() of enumerated mappings at a call site")
+    r = SymDict(M.DictRoot(z3.Const(ctx.fresh_name("merged"), TREE), "merged"))
+    return r
+
+
+C_MERGE = Contract(f"{CFG}:merge", setup=unpruned(mg_setup), ensures=mg_ensures, snapshot=mg_snapshot, result=mg_result)
+
+# ---- update_defaults
+
+
+def ud_setup(ctx):
+    init_ctx(ctx)
+    env = M.env_of(ctx)
+    for f in M.istr_facts(env.cur):
+        ctx.assume(f)
+    override_globals(config=global_config(ctx), cp=M.CupyStub(), NUM_DEVICES=env.num)
+    n = 2
+    for cand in (0, 1):
+        if ctx.branch(ctx.fresh(f"defaults_len_{cand}", "bool").t):
+            n = cand
+            break
+    defaults = [SymDict.fresh(ctx, f"defaults{i}") for i in range(n)]
+    shape = "device"
+    for cand in ("flat1", "nested1"):
+        if ctx.branch(ctx.fresh("shape_" + cand, "bool").t):
+            shape = cand
+            break
+    case = shape
+    if shape == "device":
+        val = fresh_device_request(ctx, "dev", kinds=("str", "int"))
+        items = [("device", val)]
+        case += ":" + request_case(ctx, val, env, cpu_substring=True)
+    else:
+        items = up_shape(ctx, shape)
+    new = ItemsMap(items)
+    cfg = SymDict.fresh(ctx, "config")
+    return NS(new=new, config=cfg, defaults=defaults, items=list(items), shape=shape, case=case, n=n)
+
+
+def ud_requires(s):
+    """Successive defaults are shape compatible: the accumulated defaults hold no scalar where the new defaults hold a section."""
+    out = []
+    if s.mode == "verify":
+        ft = fold_defaults([d.tree() for d in s.defaults])
+        for k, v in s.items:
+            if isinstance(v, (ItemsMap, SymDict)):
+                out.append(("accumulated-defaults-have-no-scalar-where-new-has-a-section",
+                            forall(E_, implies(TO_US(E_) == norm(k), NOT(is_leaf(ft, E_))), patterns=[TO_US(E_)])))
+    return out
+
+
+def ud_snapshot(s):
+    g = s.ctx.ghost
+    return NS(tree=s.config.tree(), writes=s.config.root.writes, defaults=list(s.defaults), n_up=len(g.get("update_calls", [])),
+              n_names=len(g.get("device_names", [])), dwrites=[d.root.writes for d in s.defaults])
+
+
+def ud_ensures(s):
+    g = s.ctx.ghost
+    d = s.defaults
+    out = [("defaults-stack-grows-by-exactly-the-new-mapping", z3.BoolVal(len(d) == len(s.old.defaults) + 1 and all(a is b for a, b in zip(d, s.old.defaults)) and d[-1] is s.new)),
+           ("earlier-defaults-unchanged", z3.BoolVal([x.root.writes for x in s.old.defaults] == s.old.dwrites))]
+    gss = g.get("update_calls", [])[s.old.n_up:]
+    if len(gss) != 1 or gss[0] is None:
+        return out + [("ghost:one-update-of-the-store", z3.BoolVal(False))]
+    ft = fold_defaults([x.tree() for x in s.old.defaults])
+    t, t2 = s.old.tree, s.config.tree()
+    items = s.new.items()
+    if s.shape == "device":
+        names = g.get("device_names", [])[s.old.n_names:]
+        k, v = items[0]
+        ok = (isinstance(v, str) and v == "cpu") or any(v is nm for (_, nm) in names)
+        out.append(("device:new-defaults-hold-the-validated-device-name", z3.BoolVal(ok)))
+    else:
+        out.append(("new-defaults-values-kept-as-given", z3.BoolVal(all(a[1] is b[1] for a, b in zip(items, s.items)))))
+    out += [("store:" + a, b) for a, b in update_rel(t, t2, items, gss[0], "new-defaults", ft)]
+    return [(f"[{s.shape},{s.n}-earlier-defaults]{a}", b) for a, b in out]
+
+
+def ud_rejected(s):
+    if s.shape != "device":
+        return z3.BoolVal(False)
+    return ckv_rejected(NS(key="device", val=s.items[0][1], ctx=s.ctx, mode="apply"))
+
+
+C_UPDDEF = Contract(f"{CFG}:update_defaults", setup=unpruned(ud_setup), requires=ud_requires, ensures=ud_ensures, snapshot=ud_snapshot,
+                    raises={Exception: ud_rejected},
+                    on_raise=lambda s, E: [("rejected-device-default-leaves-store-and-defaults-stack-unchanged",
+                                            AND(s.config.tree() == s.old.tree, s.config.root.writes == s.old.writes,
+                                                z3.BoolVal(len(s.defaults) == len(s.old.defaults) and all(a is b for a, b in zip(s.defaults, s.old.defaults)))))],
+                    note="new defaults: one scalar item, one section with one item, or {'device': request}; 0..2 earlier (opaque) defaults")
+
+# ---- refresh
+
+COLLECT = resolve(f"{CFG}:collect")
+
+
+def rf_setup(ctx):
+    init_ctx(ctx)
+    override_globals(config=global_config(ctx), cp=M.CupyStub(), NUM_DEVICES=M.env_of(ctx).num)
+    n = 3
+    for cand in (0, 1, 2):
+        if ctx.branch(ctx.fresh(f"defaults_len_{cand}", "bool").t):
+            n = cand
+            break
+    defaults = [SymDict.fresh(ctx, f"defaults{i}") for i in range(n)]
+    if ctx.branch(ctx.fresh("no_user_files", "bool").t):
+        collected, tag = ItemsMap([]), "no-user-config"
+    else:
+        collected, tag = SymDict.fresh(ctx, "user_config"), "user-config"
+    ctx.ghost["collected"] = collected
+    cfg = SymDict.fresh(ctx, "config")
+    return NS(config=cfg, defaults=defaults, collected=collected, n=n, tag=tag, case=f"{n}-defaults,{tag}")
+
+
+def rf_snapshot(s):
+    return NS(defaults=list(s.defaults), dwrites=[d.root.writes for d in s.defaults])
+
+
+def rf_ensures(s):
+    t2 = s.config.tree()
+    ft = fold_defaults([d.tree() for d in s.defaults])
+    out = [("defaults-stack-unchanged", z3.BoolVal(len(s.defaults) == len(s.old.defaults) and all(a is b for a, b in zip(s.defaults, s.old.defaults))
+                                                    and [d.root.writes for d in s.defaults] == s.old.dwrites))]
+    if isinstance(s.collected, ItemsMap):
+        out.append(("store-is-exactly-merge(*defaults)", t2 == ft))
+    else:
+        out.append(("store-is-merge(*defaults)-updated-with-the-user-configuration", t2 == UPD(ft, s.collected.tree(), z3.IntVal(PRIO["new"]), EMPTY)))
+    if not s.defaults and isinstance(s.collected, ItemsMap):
+        out.append(("nothing-accumulated:store-empty", t2 == EMPTY))
+    return [(f"[{s.case}]{a}", b) for a, b in out]
+
+
+C_REFRESH = Contract(f"{CFG}:refresh", setup=unpruned(rf_setup), ensures=rf_ensures, snapshot=rf_snapshot,
+                     note="0..3 opaque defaults; collect() is a parameter (empty, or an arbitrary user mapping); update is used through its contract")
 
 CONTRACTS = [C_CANON, C_ASSIGN, C_GET, C_VALIDATE, C_VALIDATE2, C_CHECK, C_CHECK2, C_INIT1, C_INIT2, C_INIT3, C_ENTER, C_SETDEV, C_GETDEV, C_DEVICE,
-             C_UPD_NEW, C_UPD_OLD, C_UPD_ND]
+             C_UPD_NEW, C_UPD_OLD, C_UPD_ND, C_MERGE, C_UPDDEF, C_REFRESH]
+
 
 
 
